@@ -24,6 +24,7 @@ class UnitResult:
         self.covers = []  # (name, ok)
         self.canaries = []  # (name, refuted?)
         self.bounded = []  # descriptions of bounded parts
+        self.pruned = {}
 
     @property
     def ok(self):
@@ -60,6 +61,7 @@ def run_unit(name, harness, functions=(), timeout_ms=10000, globals_extra=None, 
         res.solver_secs = eng.solver_secs
         res.queries = eng.queries
         res.used_models = set(eng.used_models)
+        res.pruned = dict(eng.pruned)
     except (Unsupported, frontend.SourceError) as e:
         res.engine_error = f"{type(e).__name__}: {e}"
         res.obligations = getattr(locals().get("eng"), "obligations", [])
